@@ -82,7 +82,7 @@ func witnessUpdateGuards(P *Program, R *Report) {
 	R.decide(rule, kWitUpdate+":U-store", "exactly one store replaces the witness value U", len(uStores) == 1, fmt.Sprintf("%d", len(uStores)), P.Pos(fn.Pos()))
 	for _, st := range uStores {
 		newU := st.Val
-		q := func(m func(Atom) bool) *MustPass { return &MustPass{P: P, NoInterproc: true, Match: m} }
+		q := func(m func(Atom) bool) *MustPass { return &MustPass{P: P, Match: m} }
 		r := q(func(a Atom) bool {
 			c, idx := callAndResult(a.V)
 			return c != nil && calleeName(c) == "revocation.(*Update).Verify" && idx == 1 && a.Want == Nil && desc(c.Call.Args[0]) == "<revocation.Update>" && desc(c.Call.Args[1]) == pkD
@@ -203,9 +203,9 @@ func neverBackwards(P *Program, R *Report) {
 			continue
 		}
 		n++
-		qGreater := &MustPass{P: P, NoInterproc: true, Match: func(a Atom) bool { return rel(a, newIdx, ourIdx, ">") }}
-		qSame := &MustPass{P: P, NoInterproc: true, Match: func(a Atom) bool { return rel(a, newT, ourT, ">") }}
-		qSameIdx := &MustPass{P: P, NoInterproc: true, Match: func(a Atom) bool { return rel(a, newIdx, ourIdx, "==") }}
+		qGreater := &MustPass{P: P, Match: func(a Atom) bool { return rel(a, newIdx, ourIdx, ">") }}
+		qSame := &MustPass{P: P, Match: func(a Atom) bool { return rel(a, newT, ourT, ">") }}
+		qSameIdx := &MustPass{P: P, Match: func(a Atom) bool { return rel(a, newIdx, ourIdx, "==") }}
 		r1 := qGreater.MustReach(fn, st)
 		r2 := qSame.MustReach(fn, st)
 		r3 := qSameIdx.MustReach(fn, st)
@@ -232,7 +232,7 @@ func windowRule(P *Program, R *Report) {
 		R.bad(rule, kWitUpdate+":U-store", "store of U exists", "", P.Pos(fn.Pos()))
 		return
 	}
-	q := &MustPass{P: P, NoInterproc: true, Match: func(a Atom) bool {
+	q := &MustPass{P: P, Match: func(a Atom) bool {
 		g, ok := parseGuard(a, nil)
 		if !ok || g.Kind != "int" {
 			return false
@@ -348,7 +348,7 @@ func productMemoRule(P *Program, R *Report) {
 			}
 			nWriters++
 			root := rootOfAddr(fa.X)
-			q := &MustPass{P: P, NoInterproc: true, Instr: func(_ *ssa.Function, j ssa.Instruction) bool {
+			q := &MustPass{P: P, Instr: func(_ *ssa.Function, j ssa.Instruction) bool {
 				s2, ok := j.(*ssa.Store)
 				if !ok {
 					return false
@@ -411,7 +411,7 @@ func accumulatorRemoveRule(P *Program, R *Report) {
 			}
 		}
 		R.decide(rule, FuncKey(fn)+":EventHash", "the new accumulator commits to the hash of the new event", okH, "", P.Pos(fn.Pos()))
-		mp(P, R, rule, FuncKey(fn)+":inverse-checked", "an accumulator is returned only if e is invertible", fn, AcceptNilErr(2), &MustPass{NoInterproc: true, Match: func(a Atom) bool {
+		mp(P, R, rule, FuncKey(fn)+":inverse-checked", "an accumulator is returned only if e is invertible", fn, AcceptNilErr(2), &MustPass{Match: func(a Atom) bool {
 			c, idx := callAndResult(a.V)
 			return c != nil && calleeName(c) == "common.ModInverse" && idx == 1 && a.Want == True
 		}})
